@@ -80,6 +80,15 @@ Theorem key_material_never_destroyed : forall ops st k,
 Proof. exact run_keeps_key. Qed.
 Print Assumptions key_material_never_destroyed.
 
+(* a keyset of a type that cannot be rotated (no key template; or ECDSASecp256k1DER, whose public key cannot be exported
+   to derive the new id) is refused by Rotate and left exactly as it was *)
+Theorem rotate_refused_leaves_store : forall v st id ks c,
+  lookup (st_store st) id = Some ks -> kt_rotatable (ks_kt ks) = false ->
+  st_store (fst (step v st (KRotate id, c))) = st_store st /\
+  (snd (step v st (KRotate id, c)) = OErr \/ snd (step v st (KRotate id, c)) = OCrashed).
+Proof. exact rotate_refused_keeps_store. Qed.
+Print Assumptions rotate_refused_leaves_store.
+
 (* the code as found: Rotate interrupted between its Delete and its Put loses the key (observation #14) *)
 Theorem crash_safe_asis_refuted :
   let st := {| st_store := asis_witness_store; st_pos := 1 |} in
